@@ -18,7 +18,7 @@ META = {
         "an optimal mapping, optimum, cost-vector flags)."
     ),
     "floors": {
-        "quick": {"evaluations": 3000, "mon.optimal": 3000, "mon.table_cells": 10000, "mon.sets": 3000, "selfcheck.dp_vs_brute": 20},
+        "quick": {"evaluations": 3000, "mon.optimal": 3000, "mon.table_cells": 10000, "mon.sets": 3000, "selfcheck.dp_vs_brute": 20, "deep_cases": 500},
         "thorough": {"evaluations": 50000, "mon.optimal": 50000, "mon.table_cells": 300000, "mon.sets": 50000, "selfcheck.dp_vs_brute": 200},
     },
     "exhaustive": {"quick": True, "thorough": True},
@@ -35,9 +35,11 @@ def plan(tier, seed):
     if tier == "quick":
         specs = [{"kind": "exh", "i": i, "n": 8, "max_obj": 3, "max_sp": 2, "nfam": 2, "ncost": 8} for i in range(8)]
         specs += [{"kind": "rand", "i": i, "count": 60, "max_obj": 5, "max_sp": 4, "max_fam": 4} for i in range(8)]
+        specs += [{"kind": "deep", "i": i, "count": 110} for i in range(8)]
         return specs
     specs = [{"kind": "exh", "i": i, "n": 32, "max_obj": 4, "max_sp": 3, "nfam": 2, "ncost": 6} for i in range(32)]
     specs += [{"kind": "rand", "i": i, "count": 350, "max_obj": 7, "max_sp": 4, "max_fam": 5, "min_obj": 3} for i in range(32)]
+    specs += [{"kind": "deep", "i": i, "count": 1500} for i in range(32)]
     return specs
 
 
